@@ -58,6 +58,14 @@ def nt_c07(e):
     return e["op"] == "Eval" and e["obs"]["len"] >= 1 and e["a"]["expr"]["k"] == "call"
 
 
+def nt_c17(e):
+    return e["op"] in ("New", "Filter", "Sort", "Distinct") and "enum" in e["obs"].get("types", []) or e["obs"]["len"] == -1
+
+
+def nt_c18(e):
+    return e["op"] == "Filter" and e["a"]["clause"].get("cmp") in ("like", "ilike")
+
+
 def nt_c01(e):
     return len(e.get("reobs", [])) >= 2
 
@@ -77,6 +85,22 @@ TV_NOTE = ("Trusted: TLC and the CommunityModules overrides; the harness encoder
 NOT_APPLICABLE = {}
 
 PROPS = {
+    "C17": dict(level="model_checking", nontrivial=nt_c17,
+                text="Enum columns with declared tables of 1..255 values in random (non-alphabetical) order, 256 and 300 values (rejected), derived enums whose cardinality reaches 253..256 "
+                     "and beyond, data over and outside the table, are built with New on the real library; every comparator against constants at ranks 0, 62..65, 126..129, 190..193, 253, 254 "
+                     "and undeclared ones, in-lists, like, enum-enum column comparison, Sort (Reverse/NullLast), Distinct, GroupBy/Aggregate (whose key keeps table and strictness) are executed and "
+                     "judged by TLC against EnumCol (Ops.tla), EnumLeaf / rank order (Clause.tla, Values.tla) and SortPost with MaxCard = 255; the same values in a string column answer alongside.",
+                note=TV_NOTE, technique="TLA+ specification (Ops.tla EnumCol, Clause.tla EnumLeaf, Rel.tla) + TLC trace validation of harness executions",
+                rule="enum frames at boundary cardinalities x operations; non-trivial = an event on a frame with an enum column, or a rejected construction; distinct by (operation, arguments, result digest)"),
+    "C18": dict(level="model_checking", nontrivial=nt_c18,
+                text="like / ilike filters over valid UTF-8 cells (ASCII, multi-byte, code points whose upper case has another byte length such as U+0131, U+017F, U+0250, the C1 control U+0080, "
+                     "cell lengths around the matcher's 10-byte buffer and its doublings, many cells per call) and patterns of every class (no %, leading, trailing, both, only %, empty, "
+                     "regular-expression metacharacters, invalid regex), on a string column and on an enum column holding the same values, are executed on the real library; TLC decides the kept rows with "
+                     "LikeTruth (spec/Clause.tla): matcher selection and literal prefix/suffix/infix/equality on byte sequences, upper-casing through a logged table of strings.ToUpper, "
+                     "regular expressions through the logged verdicts of Go's regexp for every candidate anchoring, of which the specification selects the prescribed one.",
+                note=TV_NOTE + " strings.ToUpper and regexp (standard library) are the references named by the property; only which text is matched against which regular expression is decided by the specification.",
+                technique="TLA+ specification (Clause.tla LikeTruth) + TLC trace validation of harness executions",
+                rule="random UTF-8 cells x patterns derived from cells; non-trivial = a like/ilike filter event; distinct by (pattern, column, result digest)"),
     "C10": dict(level="model_checking", nontrivial=nt_c10,
                 text="The product (column of each type or unknown) x (16 comparators incl. unknown) x (every kind of value of the documented dynamic unions, valid or not) x "
                      "(plain / Not / inside Or / inside And) for Filter, predicates of every signature, a list of invalid requests for every other operation (Sort, Slice, Select, Copy, "
